@@ -48,6 +48,53 @@ def real_r(q):
     return (lo + hi) / 2.0
 
 
+def real_rs(q):
+    """all separations used for one model query point: the start itself (even q); for a point strictly between two starts the midpoint AND the two
+    doubles adjacent to the neighbouring starts (one ulp above the lower start, one ulp below the upper one) - same rank, so the same range must act"""
+    import math
+    if q % 2 == 0:
+        return [LATTICE[q // 2]]
+    out = [real_r(q)]
+    lo = LATTICE[(q - 1) // 2]
+    hi = LATTICE[(q + 1) // 2] if (q + 1) // 2 < len(LATTICE) else None
+    if lo != float("-inf"):
+        out.append(math.nextafter(lo, math.inf))
+    if hi is not None:
+        out.append(math.nextafter(hi, -math.inf))
+    return out
+
+
+class OrderDependence(Exception):
+    pass
+
+
+def evaluate_all(observe, qs, tag):
+    """observe(r) -> observation.  Every separation of every query point is evaluated on the SAME object in ascending order, then again in descending
+    and in a scrambled order: the observation at a separation must not depend on what was evaluated before.  Returns one observation per query point
+    (all separations of a point must agree)."""
+    import random
+    pts = [(q, r) for q in qs for r in real_rs(q)]
+    first = {}
+    for q, r in pts:
+        first[(q, r)] = observe(r)
+    scr = list(pts)
+    random.Random(len(pts) * 7919 + 13).shuffle(scr)
+    for name, order in (("descending", list(reversed(pts))), ("scrambled", scr), ("ascending again", pts)):
+        for q, r in order:
+            o = observe(r)
+            if o != first[(q, r)]:
+                raise OrderDependence("%s: at r=%r the first (ascending) pass observed %s, the %s pass on the same object observes %s" % (tag, r, first[(q, r)], name, o))
+    out = []
+    for q in qs:
+        obs = [first[(q, r)] for r in real_rs(q)]
+        if any(o != obs[0] for o in obs):
+            rs = real_rs(q)
+            j = [i for i, o in enumerate(obs) if o != obs[0]][0]
+            raise OrderDependence("%s: r=%r and r=%r lie strictly between the same two range starts but observe %s and %s" % (tag, rs[0], rs[j], obs[0], obs[j]))
+        out.append(obs[0])
+    return out
+
+
 def spec_select(ranges, q):
     """The property's rule on the unordered collection: the containing range with the greatest start; at a shared start the
     inclusive range acts at r == start, an exclusive one (if any) above it.  Returns fid | None | 'ambiguous' (two candidates
@@ -74,17 +121,15 @@ def has_dup(ranges):
 def impl_select(ranges, qs, derivs=True):
     """observations of the real object: for each query (value->fid|None, deriv->fid|None, deriv2->fid|None)"""
     f = create_Multi_Range_Potential_Form(*[Multi_Range_Defn(">=" if inc else ">", LATTICE[si], T8(fid, derivs)) for (inc, si, fid) in ranges])
-    out = []
-    for q in qs:
-        r = real_r(q)
+    def observe(r):
         v = f(r)
         o = [None if v == 0.0 else int(v)]
         if derivs:
             d1, d2 = f.deriv(r), f.deriv2(r)
             o.append(None if d1 == 0.0 else int(d1) - 100)
             o.append(None if d2 == 0.0 else int(d2) - 200)
-        out.append(o)
-    return out
+        return o
+    return evaluate_all(observe, qs, "python-api")
 
 
 def potable_select(ranges, qs, first_unmarked):
@@ -100,14 +145,16 @@ def potable_select(ranges, qs, first_unmarked):
     from atsim.potentials.config import Configuration
     tab = Configuration().read(io.StringIO(cfg))
     pot = tab.potentials[0]
-    out = []
-    for q in qs:
-        r = real_r(q)
+    def observe(r):
         e, fo = pot.energy(r), pot.force(r)
         fid_e = None if e == 0.0 else int(round(e / (1000.0 + r)))
         fid_f = None if fo == 0.0 else int(round(-fo))
-        out.append([fid_e, fid_f])
-    return out, cfg
+        return [fid_e, fid_f]
+    try:
+        return evaluate_all(observe, qs, "potable"), cfg
+    except OrderDependence as e:
+        e.cfg = cfg
+        raise
 
 
 def request(ranges, qs):
@@ -145,9 +192,15 @@ def check(run):
     nbad = ndup = 0
     for ci, (c, qs, mo) in enumerate(zip(cases, qss, models)):
         derivs = (ci % 7 != 3)
-        obs = impl_select(c, qs, derivs)
-        run.traces += 1
         dup = has_dup(c)
+        try:
+            obs = impl_select(c, qs, derivs)
+        except OrderDependence as e:
+            nbad += 1
+            if nbad <= 3:
+                run.fail("range-selection", str(e), dict(case=dict(ranges=[dict(marker=">=" if i else ">", start=LATTICE[s_], fid=f_) for (i, s_, f_) in c], route="python-api")))
+            continue
+        run.traces += 1
         run.case(key=("api", tuple(c)), kind="api/n=%d%s" % (len(c), "/dup" if dup else ""), sample=dict(ranges=[(">=" if i else ">", LATTICE[s], f) for i, s, f in c], queries=[real_r(q) for q in qs], selected=mo) if ci in (5, 200) else None)
         desc = dict(ranges=[dict(marker=">=" if i else ">", start=LATTICE[s], fid=f) for (i, s, f) in c], route="python-api")
         for q, o, m in zip(qs, obs, mo):
@@ -169,7 +222,10 @@ def check(run):
         # listing-order independence (the last sentence of the property), checked on the implementation itself
         if 2 <= len(c) <= 4:
             rev = list(reversed(c))
-            o2 = impl_select(rev, qs, derivs)
+            try:
+                o2 = impl_select(rev, qs, derivs)
+            except OrderDependence:
+                continue
             if [x[0] for x in o2] != [x[0] for x in obs]:
                 diffq = [real_r(q) for q, a, b in zip(qs, obs, o2) if a[0] != b[0]]
                 if dup:
@@ -192,6 +248,9 @@ def check(run):
     for (cc, first_unmarked, qs), mo in zip(batch, pmodels):
         try:
             obs, cfg = potable_select(cc, qs, first_unmarked)
+        except OrderDependence as e:
+            run.fail("range-selection", str(e), dict(potable_file=getattr(e, "cfg", None)))
+            continue
         except Exception as e:
             run.fail("range-potable-rejected", "well-formed multi-range definition refused: %s %s" % (type(e).__name__, str(e)[:200]), dict(ranges=cc))
             continue
